@@ -8,6 +8,7 @@
 (*   dir   the temporary directory: header files, .npy.lz4 / .npz.lz4 files,    *)
 (*         metadata.yaml                                                        *)
 (*   arc   the tar archive at the permanent path (same shape)                   *)
+(*   arc2  a second archive path, written only by eko.deepcopy(path2)             *)
 (*   mmeta the in-memory metadata                                               *)
 (*   reply what the last public call returned or raised                         *)
 (* Reference (ghost) variable g: the persistent dictionary the properties talk   *)
@@ -34,10 +35,10 @@ CONSTANTS Keys,        \* evolution points (strings)
           Forms,       \* forms a key can be given in: "py", "np"
           DelPhantom, ExtClash, CloseTwice, NpHeader
 
-VARIABLES obj, dir, arc, mmeta, reply, g, last
-impl == <<obj, dir, arc, mmeta, reply>>
-vars == <<obj, dir, arc, mmeta, reply, g, last>>
-view == <<obj, dir, arc, mmeta, g>>
+VARIABLES obj, dir, arc, arc2, mmeta, reply, g, last
+impl == <<obj, dir, arc, arc2, mmeta, reply>>
+vars == <<obj, dir, arc, arc2, mmeta, reply, g, last>>
+view == <<obj, dir, arc, arc2, mmeta, g>>
 
 None == "None"
 Absent == "-"
@@ -86,7 +87,8 @@ ApproxOutcome(o, k) ==
 (* Ghost: the persistent dictionary                                           *)
 
 GNone == [mode |-> "none", model |-> <<>>, meta |-> "m0", wmeta |-> "m0",
-          p |-> [exists |-> FALSE, model |-> <<>>, meta |-> "m0"]]
+          p |-> [exists |-> FALSE, model |-> <<>>, meta |-> "m0"],
+          p2 |-> [exists |-> FALSE, model |-> <<>>, meta |-> "m0"]]
 
 GhostOpenNew == g' = [g EXCEPT !.mode = "rw", !.model = <<>>, !.meta = "m0", !.wmeta = "m0"]
 GhostOpenOld(ro) == g' = [g EXCEPT !.mode = IF ro THEN "ro" ELSE "rw",
@@ -108,6 +110,7 @@ ImplRefuse(name) == /\ reply' = Exc(name) /\ UNCHANGED <<obj, dir, arc, mmeta>>
 (* EKO.create(path) ... Builder.build()  *)
 ImplCreate ==
   /\ ~obj.exists
+  /\ UNCHANGED arc2
   /\ IF arc.exists THEN ImplRefuse("OutputExistsError")
      ELSE /\ obj' = [exists |-> TRUE, open |-> TRUE, ro |-> FALSE, cache |-> <<>>]
           /\ dir' = [EmptyFs EXCEPT !.exists = TRUE]
@@ -123,6 +126,7 @@ LoadError(fs) == IF fs.bad # {} THEN "ConstructorError" ELSE "LookupError"
 (* EKO.read(path) / EKO.edit(path) *)
 ImplOpen(ro) ==
   /\ ~obj.exists
+  /\ UNCHANGED arc2
   /\ IF ~arc.exists THEN ImplRefuse("FileNotFoundError")
      ELSE IF ~Loadable(arc) THEN ImplRefuse(LoadError(arc))
      ELSE /\ obj' = [exists |-> TRUE, open |-> TRUE, ro |-> ro,
@@ -137,6 +141,7 @@ Open(ro) == ImplOpen(ro) /\ (IF arc.exists /\ Loadable(arc) THEN GhostOpenOld(ro
 (* eko[k] = v, the key given in form f *)
 ImplSet(k, v, f) ==
   /\ obj.exists
+  /\ UNCHANGED arc2
   /\ IF ~obj.open THEN ImplRefuse("ClosedOperator")
      ELSE IF obj.ro THEN ImplRefuse("ReadOnlyOperator")
      ELSE /\ dir' = [dir EXCEPT
@@ -154,6 +159,7 @@ Set(k, v, f) == ImplSet(k, v, f) /\ GhostSet(k, v) /\ last' = [op |-> "set", k |
 (* eko[k] *)
 ImplGet(k) ==
   /\ obj.exists
+  /\ UNCHANGED arc2
   /\ LET out == GetOutcome(obj, dir, k) IN
      /\ reply' = out
      /\ obj' = IF out.kind = "val" THEN [obj EXCEPT !.cache = Upd(@, k, out.s)] ELSE obj
@@ -163,6 +169,7 @@ Get(k) == ImplGet(k) /\ UNCHANGED g /\ last' = [op |-> "get", k |-> k, v |-> "-"
 (* del eko[k]: unload only *)
 ImplDel(k) ==
   /\ obj.exists
+  /\ UNCHANGED arc2
   /\ obj' = IF DelPhantom \/ k \in DOMAIN obj.cache
             THEN [obj EXCEPT !.cache = Upd(@, k, None)] ELSE obj
   /\ reply' = Ok
@@ -172,6 +179,7 @@ Del(k) == ImplDel(k) /\ UNCHANGED g /\ last' = [op |-> "del", k |-> k, v |-> "-"
 (* k in eko *)
 ImplContains(k) ==
   /\ obj.exists
+  /\ UNCHANGED arc2
   /\ reply' = RBool(k \in DOMAIN obj.cache)
   /\ UNCHANGED <<obj, dir, arc, mmeta>>
 Contains(k) == ImplContains(k) /\ UNCHANGED g /\ last' = [op |-> "contains", k |-> k, v |-> "-", f |-> "-", m |-> "-"]
@@ -179,6 +187,7 @@ Contains(k) == ImplContains(k) /\ UNCHANGED g /\ last' = [op |-> "contains", k |
 (* list(eko) *)
 ImplIter ==
   /\ obj.exists
+  /\ UNCHANGED arc2
   /\ reply' = RKeys(DOMAIN obj.cache)
   /\ UNCHANGED <<obj, dir, arc, mmeta>>
 Iter == ImplIter /\ UNCHANGED g /\ last' = [op |-> "iter", k |-> "-", v |-> "-", f |-> "-", m |-> "-"]
@@ -188,6 +197,7 @@ Iter == ImplIter /\ UNCHANGED g /\ last' = [op |-> "iter", k |-> "-", v |-> "-",
 ItemsOk == \A k \in DOMAIN obj.cache : GetOutcome(obj, dir, k).kind = "val"
 ImplItems ==
   /\ obj.exists
+  /\ UNCHANGED arc2
   /\ IF DOMAIN obj.cache = {} THEN /\ reply' = RPairs({}) /\ UNCHANGED obj
      ELSE IF ~obj.open THEN /\ reply' = Exc("ClosedOperator") /\ UNCHANGED obj
      ELSE IF ItemsOk
@@ -200,6 +210,7 @@ Items == ImplItems /\ UNCHANGED g /\ last' = [op |-> "items", k |-> "-", v |-> "
 (* eko.approx(k) *)
 ImplApprox(k) ==
   /\ obj.exists
+  /\ UNCHANGED arc2
   /\ reply' = ApproxOutcome(obj, k)
   /\ UNCHANGED <<obj, dir, arc, mmeta>>
 Approx(k) == ImplApprox(k) /\ UNCHANGED g /\ last' = [op |-> "approx", k |-> k, v |-> "-", f |-> "-", m |-> "-"]
@@ -207,6 +218,7 @@ Approx(k) == ImplApprox(k) /\ UNCHANGED g /\ last' = [op |-> "approx", k |-> k, 
 (* eko.unload() *)
 ImplUnload ==
   /\ obj.exists
+  /\ UNCHANGED arc2
   /\ obj' = [obj EXCEPT !.cache = [k \in DOMAIN @ |-> None]]
   /\ reply' = Ok
   /\ UNCHANGED <<dir, arc, mmeta>>
@@ -215,6 +227,7 @@ Unload == ImplUnload /\ UNCHANGED g /\ last' = [op |-> "unload", k |-> "-", v |-
 (* eko.operators.sync(): every header on disk enters the cache unloaded *)
 ImplSync ==
   /\ obj.exists
+  /\ UNCHANGED arc2
   /\ IF ~dir.exists THEN ImplRefuse("FileNotFoundError")
      ELSE IF dir.bad # {} THEN ImplRefuse("ConstructorError")
      ELSE /\ obj' = [obj EXCEPT !.cache = [k \in (DOMAIN @) \cup dir.hdr |->
@@ -226,6 +239,7 @@ Sync == ImplSync /\ UNCHANGED g /\ last' = [op |-> "sync", k |-> "-", v |-> "-",
 (* change a metadata field in memory (no write) *)
 ImplSetMeta(m) ==
   /\ obj.exists
+  /\ UNCHANGED arc2
   /\ mmeta' = m
   /\ reply' = Ok
   /\ UNCHANGED <<obj, dir, arc>>
@@ -234,6 +248,7 @@ SetMeta(m) == ImplSetMeta(m) /\ GhostSetMeta(m) /\ last' = [op |-> "setmeta", k 
 (* eko.update() *)
 ImplUpdate ==
   /\ obj.exists
+  /\ UNCHANGED arc2
   /\ IF ~obj.open THEN ImplRefuse("ClosedOperator")
      ELSE IF obj.ro THEN ImplRefuse("ReadOnlyOperator")
      ELSE /\ dir' = [dir EXCEPT !.meta = mmeta]
@@ -244,6 +259,7 @@ Update == ImplUpdate /\ GhostUpdate /\ last' = [op |-> "update", k |-> "-", v |-
 (* eko.load_recipes([...]): a header lands in the (contentless) recipes inventory *)
 ImplRecipe ==
   /\ obj.exists
+  /\ UNCHANGED arc2
   /\ IF ~obj.open THEN ImplRefuse("ClosedOperator")
      ELSE IF obj.ro THEN ImplRefuse("ReadOnlyOperator")
      ELSE /\ dir' = [dir EXCEPT !.rec = TRUE]
@@ -254,6 +270,7 @@ Recipe == ImplRecipe /\ UNCHANGED g /\ last' = [op |-> "recipe", k |-> "-", v |-
 (* eko.dump() on the registered path *)
 ImplDump ==
   /\ obj.exists
+  /\ UNCHANGED arc2
   /\ IF ~obj.open THEN ImplRefuse("ClosedOperator")
      ELSE IF obj.ro THEN ImplRefuse("ReadOnlyOperator")
      ELSE /\ arc' = dir
@@ -264,6 +281,7 @@ Dump == ImplDump /\ GhostDump /\ last' = [op |-> "dump", k |-> "-", v |-> "-", f
 (* eko.close() *)
 ImplClose ==
   /\ obj.exists
+  /\ UNCHANGED arc2
   /\ IF obj.open
      THEN /\ arc' = IF obj.ro THEN arc ELSE dir
           /\ obj' = [obj EXCEPT !.open = FALSE]
@@ -279,9 +297,42 @@ ImplClose ==
                ELSE ImplRefuse("ClosedOperator")     \* assert_open first (repaired)
 Close == ImplClose /\ GhostClose /\ last' = [op |-> "close", k |-> "-", v |-> "-", f |-> "-", m |-> "-"]
 
+(* with eko.operator(k) as op: ...   = load, use, unload (also when the load fails)   *)
+ImplWithOperator(k) ==
+  /\ obj.exists
+  /\ UNCHANGED arc2
+  /\ LET out == GetOutcome(obj, dir, k) IN
+     /\ reply' = out
+     /\ obj' = IF out.kind = "val" \/ (DelPhantom /\ obj.open) \/ k \in DOMAIN obj.cache
+               THEN [obj EXCEPT !.cache = Upd(@, k, None)] ELSE obj
+     /\ UNCHANGED <<dir, arc, mmeta>>
+WithOperator(k) == ImplWithOperator(k) /\ UNCHANGED g /\ last' = [op |-> "withop", k |-> k, v |-> "-", f |-> "-", m |-> "-"]
+
+(* eko.deepcopy(path2): unload everything, copy the working directory, close the copy   *)
+(* onto the second path (refused when that path is taken: Builder is not involved, the     *)
+(* copy simply overwrites - as coded)                                                      *)
+ImplDeepcopy ==
+  /\ obj.exists
+  /\ IF ~obj.open THEN ImplRefuse("ClosedOperator") /\ UNCHANGED arc2
+     ELSE /\ obj' = [obj EXCEPT !.cache = [k \in DOMAIN @ |-> None]]
+          /\ arc2' = dir
+          /\ reply' = Ok
+          /\ UNCHANGED <<dir, arc, mmeta>>
+GhostDeepcopy == g' = IF g.mode \in {"rw", "ro"}
+                      THEN [g EXCEPT !.p2 = [exists |-> TRUE, model |-> g.model, meta |-> g.wmeta]] ELSE g
+Deepcopy == ImplDeepcopy /\ GhostDeepcopy /\ last' = [op |-> "deepcopy", k |-> "-", v |-> "-", f |-> "-", m |-> "-"]
+
+(* EKO.create(path) with a path that does not end in .tar / build() without cards *)
+ImplCreateBad(why) ==
+  /\ ~obj.exists
+  /\ UNCHANGED arc2
+  /\ ImplRefuse(IF why = "suffix" THEN "OutputNotTar" ELSE "RuntimeError")
+CreateBad(why) == ImplCreateBad(why) /\ UNCHANGED g /\ last' = [op |-> "createbad", k |-> "-", v |-> why, f |-> "-", m |-> "-"]
+
 (* the object is forgotten (session ends without close: exception inside `with`) *)
 ImplDrop ==
   /\ obj.exists
+  /\ UNCHANGED arc2
   /\ obj' = NoObj
   /\ dir' = EmptyFs
   /\ reply' = Ok
@@ -293,6 +344,7 @@ Init ==
   /\ obj = NoObj
   /\ dir = EmptyFs
   /\ arc = EmptyFs
+  /\ arc2 = EmptyFs
   /\ mmeta = "m0"
   /\ reply = Ok
   /\ g = GNone
@@ -301,7 +353,8 @@ Init ==
 Next ==
   \/ Create \/ Open(TRUE) \/ Open(FALSE)
   \/ \E k \in Keys, v \in Vals, f \in Forms : Set(k, v, f)
-  \/ \E k \in Keys : Get(k) \/ Del(k) \/ Contains(k) \/ Approx(k)
+  \/ \E k \in Keys : Get(k) \/ Del(k) \/ Contains(k) \/ Approx(k) \/ WithOperator(k)
+  \/ Deepcopy \/ CreateBad("suffix") \/ CreateBad("cards")
   \/ Iter \/ Items \/ Unload \/ Sync
   \/ \E m \in Metas : SetMeta(m)
   \/ Update \/ Recipe \/ Dump \/ Close \/ Drop
@@ -322,6 +375,10 @@ C37_Values == Live => \A k \in Keys :
 ArcView == [k \in arc.hdr |-> IF NFiles(arc, k) = 1 THEN TheFile(arc, k) ELSE "unreadable"]
 C37_Persistent == g.p.exists => (arc.exists /\ Loadable(arc) /\ ArcView = g.p.model)
 C37_NoArchiveBeforeClose == ~g.p.exists => ~arc.exists
+(* the deep copy holds what the dictionary held when it was taken *)
+Arc2View == [k \in arc2.hdr |-> IF NFiles(arc2, k) = 1 THEN TheFile(arc2, k) ELSE "unreadable"]
+C37_DeepcopyFaithful == g.p2.exists => (arc2.exists /\ Loadable(arc2) /\ Arc2View = g.p2.model /\ arc2.meta = g.p2.meta)
+C37_NoCopyBeforeDeepcopy == ~g.p2.exists => ~arc2.exists
 C37_Approx == Live => \A k \in Keys :
                  LET m == {j \in DOMAIN g.model : NfOf[j] = NfOf[k] /\ Near(j, k)} IN
                  ApproxOutcome(obj, k) = IF Cardinality(m) = 1 THEN RKey(CHOOSE j \in m : TRUE)
